@@ -140,8 +140,46 @@ def close(a, b, tol, scale=None):
 
 # ------------------------------------------------------------------ ops
 
+def case_advi(ctx, res, p):
+    """The ADVI objective is E_q[loss] - entropy(q), estimated as logp(z) - log q(z) at reparameterised samples: whatever the
+    PRNG draws, the estimator is exactly 0 when p = q, and log q is the sum of the normal log-densities over ALL entries of
+    the latent array - also for the (2, k) latent of the dimensionality estimator.  (Tests; the PRNG itself is opaque.)"""
+    import jax, jax.numpy as jnp
+    from jax.scipy.stats import norm as jnorm
+    inf = mellon().inference
+    shape = tuple(p["shape"])
+    rng = np.random.default_rng(int(p["seed"]))
+    mean = rng.normal(size=shape)
+    log_std = rng.normal(size=shape) * 0.5
+    x = rng.normal(size=shape)
+    size = int(np.prod(shape))
+    res.case(("advi", shape, int(p["seed"])), True, {"op": "advi", "shape": list(shape)})
+    res.count("advi:latent_rank=%d" % len(shape))
+    ref = float(np.sum(-0.5 * ((x - mean) / np.exp(log_std)) ** 2 - log_std - 0.5 * np.log(2 * np.pi)))
+    got = np.asarray(inf.calculate_gaussian_logpdf(jnp.asarray(x), jnp.asarray(mean), jnp.asarray(log_std)), float)
+    if got.shape != () or abs(float(got) - ref) > 1e-9 * (abs(ref) + size):
+        res.oracle_fail("log q(x) of the variational family is not the sum of the normal log-densities over all entries", p,
+                        detail={"got": np.asarray(got).tolist(), "expected": ref}, signature="C03:advi-logq")
+        return
+    selflogp = lambda z: jnp.sum(jnorm.logpdf(z, jnp.asarray(mean), jnp.exp(jnp.asarray(log_std))))
+    key = jax.random.PRNGKey(int(p["seed"]) % 1000)
+    e1 = float(inf.calculate_elbo(selflogp, key, jnp.asarray(mean), jnp.asarray(log_std)))
+    e2 = float(inf.calculate_batch_elbo(selflogp, key, (jnp.asarray(mean), jnp.asarray(log_std)), 4))
+    res.dev("advi_self_elbo_abs", max(abs(e1), abs(e2)))
+    if max(abs(e1), abs(e2)) > 1e-8 * size:
+        res.oracle_fail("the ELBO estimator of q against itself is not 0 (entropy term wrong)", p,
+                        detail={"single": e1, "batch": e2}, signature="C03:advi-elbo")
+    z0 = jnp.asarray(mean)
+    loss = lambda z: -jnp.sum(jnorm.logpdf(z, z0, 1.0))
+    out = inf.run_advi(loss, z0, n_iter=2, init_learn_rate=0.01, nsamples=3, jit=False)
+    first = float(out.losses[0])
+    if abs(first) > 1e-8 * size:
+        res.oracle_fail("run_advi: the objective at the start (q = N(z0, 1) against the target N(z0, 1)) is not 0", p,
+                        detail={"first_trace_value": first}, signature="C03:advi-objective")
+
+
 def run_case(ctx, res, p):
-    return {"prep": case_prep, "dimprep": case_dimprep, "helpers": case_helpers, "nn": case_nn,
+    return {"advi": case_advi, "prep": case_prep, "dimprep": case_dimprep, "helpers": case_helpers, "nn": case_nn,
             "density": case_density, "dshape": case_dshape, "pois": case_pois, "muls": case_muls}[p["op"]](ctx, res, p)
 
 
@@ -727,6 +765,8 @@ def run(ctx, res):
         run_case(ctx, res, {"op": "dshape", "shape": shape})
     run_case(ctx, res, {"op": "nn", "X": rng.normal(size=(1, 2)), "k": 1})
     run_case(ctx, res, {"op": "nn", "X": rng.normal(size=(4, 3)), "k": 4})
+    for shape in ([7], [2, 7], [1, 5], [2, 1]):
+        run_case(ctx, res, {"op": "advi", "shape": shape, "seed": int(rng.integers(1 << 30))})
     for n in (2, 100, 101, 102, 201):
         run_case(ctx, res, {"op": "muls", "r": 10.0 ** rng.uniform(-4, 4, size=n), "d": float(rng.integers(1, 30))})
     # sampled part, cheap ops dominate
